@@ -14,7 +14,8 @@
                                                       Loop_RecvNone -> leave the stream
                         heartbeat timeout             Loop_Timeout  -> dispatch disconnect, remove
                       incoming_streams.try_iter()     Loop_Admit*   -> dispatch connect, insert
-                      outgoing_messages.try_iter()    Loop_FlushUni / Loop_FlushBc *
+                      outgoing_messages.try_iter()    Loop_Flush*   -> unicast to a present addressee,
+                                                                       broadcast to the current key set
                       sleep(poll_interval)            (back to the top)
      handler pool   FIFO channel `q`, N workers: Worker_Take (dequeue under the receiver mutex),
                     Worker_Invoke (handler body starts, after the mutex was released),
@@ -44,8 +45,8 @@ CONSTANTS Clients,       \* client ids (small positive integers; one id = one so
           Workers,       \* pool worker ids
           Heartbeat,     \* BOOLEAN - heartbeat configured (timeouts possible)
           Reply,         \* [{"C","M","D"} -> {"none","uni","bc"}] what each handler sends
-          ExtScript,     \* sequence over {"uni","bc"}: what the external AsyncSender sends (a unicast
-                         \* goes to an arbitrary client id, connected or not)
+          ExtScript,     \* sequence over {"uni","bc"}: what the external AsyncSender sends (a unicast goes
+                         \* to the address of any client that has connected at some time, present or not)
           Mode,          \* "free" | "lockstep" (lockstep = the sub-behaviours the gated harness can force)
           ShutdownMode,  \* "any" | "quiescent"
           Dev
